@@ -27,7 +27,7 @@ from ..field import Field
 from ..linearization import Linearization
 from ..multi_domain import MultiDomain
 from ..multi_field import MultiField
-from ..sugar import makeDomain, makeOp
+from ..sugar import domain_union, makeDomain, makeOp
 from ..utilities import iscomplextype, myassert
 from .adder import Adder
 from .linear_operator import LinearOperator
@@ -249,7 +249,7 @@ class _LikelihoodSum(LikelihoodEnergyOperator):
 
         data_residuals = reduce(add, res)
         super(_LikelihoodSum, self).__init__(data_residuals, sqrt_data_metric_at)
-        self._domain = data_residuals.domain
+        self._domain = domain_union([oo.domain for oo in ops])
 
     @classmethod
     def unpack(cls, ops, res):
